@@ -50,6 +50,39 @@ def run(chk, tier):
             chk.inst("R-GUARD", af, "dedup-before-add#%d" % nadd, ok, "the info pair (%s) is added to a kind only after a duplicate test of that pair failed%s"
                      % (", ".join(nv), "" if ok else " (facts: %s)" % must.facts_text(st)[:6]), loc=af.loc(c))
     chk.floor("R-GUARD", "info additions in cpukinds.c", nadd, 1)
+    # every input pair is considered: a loop that adds info pairs element by element is left only through its own condition (a
+    # `return`/`break`/`goto` out of it -- e.g. on meeting a duplicate -- silently drops the remaining pairs)
+    nlp = 0
+    for af in P.unit("cpukinds.c").funcs(only_main=True):
+        if af.entry is None:
+            continue
+        for lp in af.walk():
+            if lp["k"] not in ("For", "While", "Do"):
+                continue
+            body = lp["c"][-1]
+            if not any(s["k"] == "Call" and s.get("fn") == "hwloc__add_info" for s in subnodes(body)):
+                continue
+            # innermost such loop only (an enclosing loop over kinds may legitimately stop)
+            if any(s is not lp and s["k"] in ("For", "While", "Do") and any(z["k"] == "Call" and z.get("fn") == "hwloc__add_info" for z in subnodes(s["c"][-1])) for s in subnodes(body)):
+                continue
+            nlp += 1
+            exits = []
+            def scan(n, depth):
+                if n is None:
+                    return
+                if n["k"] in ("Return", "Goto"):
+                    exits.append(n)
+                    return
+                if n["k"] == "Break" and depth == 0:
+                    exits.append(n)
+                    return
+                d2 = depth + 1 if n["k"] in ("For", "While", "Do", "Switch") else depth
+                for c in n.get("c", ()):
+                    scan(c, d2)
+            scan(body, 0)
+            chk.inst("R-GUARD", af, "add-loop-complete#%d" % nlp, not exits, "the loop that adds info pairs one by one is left only through its own condition%s"
+                     % ("" if not exits else ": %s at line %s leaves it early and drops the remaining pairs" % (exits[0]["k"].lower(), exits[0].get("l"))), loc=af.loc(lp))
+    chk.floor("R-GUARD", "loops adding info pairs", nlp, 1)
     chk.rule("R-OBLIG", "after a public register and after a restrict the kinds are re-ranked / restricted: calls present under their own NO_CPUKINDS test only")
     f = P.need_func("hwloc_cpukinds_register", "cpukinds.c")
     chk.inst("R-OBLIG", f, "rank-after-register", any(True for c in f.calls("hwloc_internal_cpukinds_rank")), "hwloc_cpukinds_register re-ranks the kinds")
